@@ -19,3 +19,8 @@ func (m *DomainProxyModule) VerifLookupMapping(host string) (*models.PortMapping
 }
 
 func VerifExtractDomain(host string) string { return extractDomain(host) }
+
+// VerifNewForServe builds a module that can run ServeHTTP's small-request path (dependencies and config only).
+func VerifNewForServe(deps *httpservice.ModuleDependencies, config *httpservice.DomainProxyModuleConfig) *DomainProxyModule {
+	return &DomainProxyModule{deps: deps, config: config}
+}
